@@ -25,6 +25,54 @@ use std::time::{Duration, Instant};
 use log::{error, info};
 use slab::Slab;
 
+// Verification hooks (add-only; compiled out unless `--cfg quandary_verif`).
+// `verif_trace!` logs one event per critical section while the mutex is
+// still held; `verif_sched!` is a scheduling/delay point; `verif_note!`
+// attaches a number to the calling thread's next event.
+#[cfg(quandary_verif)]
+macro_rules! verif_trace {
+    (pool $kind:expr, $r:expr) => {
+        verif::trace(
+            $kind,
+            $r.available_workers as u64,
+            $r.queue.len() as u64,
+            $r.shutting_down as u64,
+        )
+    };
+    (group $kind:expr, $r:expr, $c:expr) => {
+        verif::trace(
+            $kind,
+            $r.thread_count as u64,
+            $r.shutting_down as u64,
+            $c as u64,
+        )
+    };
+}
+#[cfg(not(quandary_verif))]
+macro_rules! verif_trace {
+    ($($t:tt)*) => {};
+}
+#[cfg(quandary_verif)]
+macro_rules! verif_sched {
+    ($point:expr) => {
+        verif::sched($point)
+    };
+}
+#[cfg(not(quandary_verif))]
+macro_rules! verif_sched {
+    ($($t:tt)*) => {};
+}
+#[cfg(quandary_verif)]
+macro_rules! verif_note {
+    ($n:expr) => {
+        verif::note($n as u64)
+    };
+}
+#[cfg(not(quandary_verif))]
+macro_rules! verif_note {
+    ($($t:tt)*) => {};
+}
+
 ////////////////////////////////////////////////////////////////////////
 // THREAD GROUPS                                                      //
 ////////////////////////////////////////////////////////////////////////
@@ -86,6 +134,7 @@ impl ThreadGroup {
     {
         let mut records = self.records.lock().unwrap();
         if records.shutting_down {
+            verif_trace!(group "spawn_reject", records, 0);
             Err(Error::ShuttingDown)
         } else {
             start_oneshot(self.clone(), &mut records, name, task).map_err(Into::into)
@@ -119,6 +168,8 @@ impl ThreadGroup {
     pub fn shut_down(&self) {
         let mut records = self.records.lock().unwrap();
         records.shutting_down = true;
+        verif_trace!(group "sd_g", records, records.pools.len());
+        verif_sched!("sd_mid");
         for pool in records.pools.drain() {
             pool.shut_down_without_removing();
         }
@@ -132,6 +183,19 @@ impl ThreadGroup {
     /// (since the thread count will never become zero).
     pub fn await_shutdown(&self) {
         let records = self.records.lock().unwrap();
+        #[cfg(quandary_verif)]
+        let _guard = self
+            .shutdown_wakeup
+            .wait_while(records, |r| {
+                verif_trace!(
+                    group if !r.shutting_down || r.thread_count > 0 { "aw_wait" } else { "aw_ret" },
+                    r,
+                    0
+                );
+                !r.shutting_down || r.thread_count > 0
+            })
+            .unwrap();
+        #[cfg(not(quandary_verif))]
         let _guard = self
             .shutdown_wakeup
             .wait_while(records, |r| !r.shutting_down || r.thread_count > 0)
@@ -173,6 +237,9 @@ where
     F: FnOnce() + Send + 'static,
 {
     records.thread_count += 1;
+    #[cfg(quandary_verif)]
+    let verif_child = verif::fresh_tid();
+    verif_trace!(group "spawn", records, verif_child);
     let handle = OneshotHandle {
         group,
         parent: thread::current().id(),
@@ -180,11 +247,14 @@ where
     let result = thread::Builder::new()
         .name(name.unwrap_or_else(|| "anonymous".to_owned()))
         .spawn(move || {
+            #[cfg(quandary_verif)]
+            verif::set_tid(verif_child);
             task();
             drop(handle);
         });
     if result.is_err() {
         records.thread_count -= 1;
+        verif_trace!(group "spawn_failed", records, verif_child);
     }
     result.and(Ok(()))
 }
@@ -207,8 +277,10 @@ impl Drop for OneshotHandle {
             error!("One-shot thread {thread_name} panicked");
         }
 
+        verif_sched!("os_drop");
         let mut records = self.group.records.lock().unwrap();
         end_thread(&mut records, &self.group.shutdown_wakeup);
+        verif_trace!(group "end", records, 0);
     }
 }
 
@@ -244,6 +316,9 @@ where
     F: Fn() + Send + Sync + 'static,
 {
     records.thread_count += 1;
+    #[cfg(quandary_verif)]
+    let verif_child = verif::fresh_tid();
+    verif_trace!(group "rspawn", records, verif_child);
     let handle = RespawnableHandle {
         group,
         parent: thread::current().id(),
@@ -253,11 +328,14 @@ where
     let result = thread::Builder::new()
         .name(name.unwrap_or_else(|| "anonymous".to_owned()))
         .spawn(move || {
+            #[cfg(quandary_verif)]
+            verif::set_tid(verif_child);
             (handle.task)();
             drop(handle);
         });
     if result.is_err() {
         records.thread_count -= 1;
+        verif_trace!(group "rspawn_failed", records, verif_child);
     }
     result.and(Ok(()))
 }
@@ -280,6 +358,7 @@ where
             error!("Respawnable thread {thread_name} panicked");
         }
 
+        verif_sched!("r_drop");
         let mut records = self.group.records.lock().unwrap();
         if !records.shutting_down {
             if !thread::panicking() {
@@ -306,6 +385,7 @@ where
                     thread_name,
                     wait_for.as_millis()
                 );
+                verif_trace!(group "r_wait", records, 0);
                 records = self
                     .group
                     .shutdown_wakeup
@@ -329,6 +409,7 @@ where
             }
         }
         end_thread(&mut records, &self.group.shutdown_wakeup);
+        verif_trace!(group "r_end", records, 0);
     }
 }
 
@@ -439,17 +520,22 @@ impl ThreadPool {
     where
         F: FnOnce() + Send + 'static,
     {
+        verif_sched!("sub_entry");
         let mut records = self.records.lock().unwrap();
         loop {
             if records.shutting_down {
+                verif_trace!(pool "sub_reject", records);
                 return Err(Error::ShuttingDown);
             } else if records.available_workers > records.queue.len() {
                 break;
             }
+            verif_trace!(pool "sub_wait", records);
             records = self.available_wakeup.wait(records).unwrap();
         }
+        verif_sched!("sub_cs");
         records.queue.push_back(Box::new(task));
         self.task_wakeup.notify_one();
+        verif_trace!(pool "sub_push", records);
         Ok(())
     }
 
@@ -460,12 +546,16 @@ impl ThreadPool {
     where
         F: FnOnce() + Send + 'static,
     {
+        verif_sched!("sos_entry");
         let mut records = self.records.lock().unwrap();
         if records.shutting_down {
+            verif_trace!(pool "sos_reject", records);
             Err(Error::ShuttingDown)
         } else if records.available_workers > records.queue.len() {
+            verif_sched!("sos_cs");
             records.queue.push_back(Box::new(task));
             self.task_wakeup.notify_one();
+            verif_trace!(pool "sos_push", records);
             Ok(())
         } else {
             // No pooled worker is available, so we create a one-shot
@@ -474,7 +564,9 @@ impl ThreadPool {
             // other tasks to run (with the configured timeout).
             let id = records.next_auxiliary_id;
             records.next_auxiliary_id += 1;
+            verif_trace!(pool "sos_need", records);
             drop(records);
+            verif_sched!("sos_gap");
             let name = format!("{} auxiliary worker {}", self.name, id);
             if self.linger_timeout.is_zero() {
                 self.group.start_oneshot(Some(name), task)
@@ -497,6 +589,11 @@ impl ThreadPool {
         // earlier call, or by ThreadGroup::shut_down), and its key may
         // since have been reused for another pool. Slab::remove panics
         // on a vacant key, which would poison the group's mutex.
+        #[cfg(quandary_verif)]
+        let verif_registered = group_records
+            .pools
+            .get(self.key)
+            .map_or(false, |pool| std::ptr::eq(Arc::as_ptr(pool), self));
         if group_records
             .pools
             .get(self.key)
@@ -504,6 +601,8 @@ impl ThreadPool {
         {
             group_records.pools.remove(self.key);
         }
+        verif_trace!(group "psd1", group_records, verif_registered);
+        verif_sched!("psd_gap");
         // The group's lock is held until the pool is marked as shutting
         // down (same lock order as ThreadGroup::shut_down). Otherwise a
         // concurrent ThreadGroup::shut_down could find the pool already
@@ -521,6 +620,7 @@ impl ThreadPool {
         records.shutting_down = true;
         self.task_wakeup.notify_all();
         self.available_wakeup.notify_all();
+        verif_trace!(pool "p_sd", records);
     }
 
     /// Returns whether the `ThreadPool` is shutting down.
@@ -558,6 +658,7 @@ fn start_pool_workers(
 fn pool_worker_loop(pool: Arc<ThreadPool>, timeout: Option<Duration>) {
     loop {
         let deadline = timeout.map(|t| Instant::now() + t);
+        verif_sched!("w_pre_lock");
         let mut records = pool.records.lock().unwrap();
         records.available_workers += 1;
         pool.available_wakeup.notify_one();
@@ -565,6 +666,7 @@ fn pool_worker_loop(pool: Arc<ThreadPool>, timeout: Option<Duration>) {
             if !records.queue.is_empty() {
                 break;
             } else if records.shutting_down {
+                verif_trace!(pool "w_exit_sd", records);
                 return;
             }
             records = if let Some(deadline) = deadline {
@@ -573,13 +675,16 @@ fn pool_worker_loop(pool: Arc<ThreadPool>, timeout: Option<Duration>) {
                     None => {
                         // The deadline has already passed.
                         records.available_workers -= 1;
+                        verif_trace!(pool "w_exit_dl", records);
                         return;
                     }
                 };
+                verif_trace!(pool "w_wait", records);
                 let (mut records, wait_result) = pool
                     .task_wakeup
                     .wait_timeout(records, time_to_deadline)
                     .unwrap();
+                verif_note!(1 + wait_result.timed_out() as u64);
                 if wait_result.timed_out() && records.queue.is_empty() {
                     // Only give up if no task was queued while we were
                     // timing out: a submitter that saw us counted in
@@ -588,18 +693,138 @@ fn pool_worker_loop(pool: Arc<ThreadPool>, timeout: Option<Duration>) {
                     // before we re-acquired the mutex. Otherwise, fall
                     // through to the queue check above and run it.
                     records.available_workers -= 1;
+                    verif_trace!(pool "w_exit_to", records);
                     return;
                 } else {
                     records
                 }
             } else {
+                verif_trace!(pool "w_wait", records);
                 pool.task_wakeup.wait(records).unwrap()
             };
         }
         let task = records.queue.pop_front().unwrap();
         records.available_workers -= 1;
+        verif_trace!(pool "w_take", records);
         drop(records);
         task();
+        verif_sched!("w_after_task");
+    }
+}
+
+////////////////////////////////////////////////////////////////////////
+// VERIFICATION HOOKS                                                 //
+////////////////////////////////////////////////////////////////////////
+
+/// Event log and scheduling points used by the verification harness.
+/// Nothing here is compiled unless `--cfg quandary_verif` is given, and
+/// nothing is recorded or delayed unless [`verif::arm`] has been called.
+#[cfg(quandary_verif)]
+pub mod verif {
+    use std::cell::Cell;
+    use std::sync::atomic::{AtomicBool, AtomicU64, Ordering};
+    use std::sync::{Arc, Mutex};
+
+    /// One critical section of `thread.rs`, logged while its mutex was
+    /// held. `a`, `b`, `c` are the protected counters after the section
+    /// (pool: available workers, queue length, shutting down; group:
+    /// thread count, shutting down, id given to a spawned thread).
+    #[derive(Clone, Debug)]
+    pub struct Event {
+        pub tid: u64,
+        pub kind: &'static str,
+        pub note: u64,
+        pub a: u64,
+        pub b: u64,
+        pub c: u64,
+    }
+
+    /// A callback run at every scheduling point (`verif_sched!`).
+    pub type Sched = Arc<dyn Fn(&'static str) + Send + Sync>;
+
+    static ARMED: AtomicBool = AtomicBool::new(false);
+    static NEXT_TID: AtomicU64 = AtomicU64::new(0);
+    static LOG: Mutex<Vec<Event>> = Mutex::new(Vec::new());
+    static SCHED: Mutex<Option<Sched>> = Mutex::new(None);
+
+    thread_local! {
+        static TID: Cell<u64> = Cell::new(u64::MAX);
+        static NOTE: Cell<u64> = Cell::new(0);
+    }
+
+    /// Starts recording (clearing the log and the id counter).
+    pub fn arm(sched: Option<Sched>) {
+        LOG.lock().unwrap().clear();
+        *SCHED.lock().unwrap() = sched;
+        NEXT_TID.store(0, Ordering::SeqCst);
+        ARMED.store(true, Ordering::SeqCst);
+    }
+
+    /// Stops recording and returns the log.
+    pub fn disarm() -> Vec<Event> {
+        ARMED.store(false, Ordering::SeqCst);
+        *SCHED.lock().unwrap() = None;
+        std::mem::take(&mut *LOG.lock().unwrap())
+    }
+
+    /// A copy of the log so far.
+    pub fn snapshot() -> Vec<Event> {
+        LOG.lock().unwrap().clone()
+    }
+
+    /// Allocates the next thread id.
+    pub fn fresh_tid() -> u64 {
+        NEXT_TID.fetch_add(1, Ordering::SeqCst)
+    }
+
+    /// Sets the id under which the calling thread logs.
+    pub fn set_tid(tid: u64) {
+        TID.with(|t| t.set(tid));
+        NOTE.with(|n| n.set(0));
+    }
+
+    /// The id under which the calling thread logs.
+    pub fn tid() -> u64 {
+        TID.with(|t| {
+            if t.get() == u64::MAX {
+                t.set(fresh_tid());
+            }
+            t.get()
+        })
+    }
+
+    /// Attaches `n` to the calling thread's next event.
+    pub fn note(n: u64) {
+        NOTE.with(|c| c.set(n));
+    }
+
+    /// Appends an event; the caller holds the mutex protecting the
+    /// counters it passes, so the log order is a linearisation.
+    pub fn trace(kind: &'static str, a: u64, b: u64, c: u64) {
+        let note = NOTE.with(|n| n.replace(0));
+        if !ARMED.load(Ordering::SeqCst) {
+            return;
+        }
+        let tid = tid();
+        LOG.lock().unwrap().push(Event {
+            tid,
+            kind,
+            note,
+            a,
+            b,
+            c,
+        });
+    }
+
+    /// A scheduling point.
+    pub fn sched(point: &'static str) {
+        if !ARMED.load(Ordering::SeqCst) {
+            return;
+        }
+        let hook = SCHED.lock().unwrap().clone();
+        if let Some(hook) = hook {
+            hook(point);
+        }
     }
 }
 
